@@ -19,8 +19,8 @@ from fractions import Fraction
 
 import torch
 
-from .aggsym_common import (EPS, F64, NORM_EPS, PE_NORM, ROSTER, build, call, cond_of, ld, maxdiff, mgda_gap,
-                            norm_eps_side, present, presented, rationalise, ref_of, split_padded)
+from .aggsym_common import (EPS, F64, NORM_EPS, PE_NORM, ROSTER, build, call, cond_of, config_col, config_exact, ld,
+                            maxdiff, mgda_gap, norm_eps_side, present, presented, rationalise, ref_of, split_padded)
 from .core import Ctx, MachineryError
 from .tlc import run_tlc
 
@@ -108,7 +108,11 @@ def py_classify(J0: list[list[int]]) -> dict:
         lo = sum(v * (_lo(int(H[i][i])) if v >= 0 else _hi(int(H[i][i]))) for i, v in enumerate(y))
         hi = sum(v * (_hi(int(H[i][i])) if v >= 0 else _lo(int(H[i][i]))) for i, v in enumerate(y))
         deg = lo <= 0 <= hi
-    return {"rank": rk, "rankUnamb": rk == len(nz), "detNZ": int(detnz), "trG": tr, "lamFloor": lam,
+    n = len(J0[0])
+    C = [[Fraction(sum(J0[i][a] * J0[i][b] for i in range(m))) for b in range(n)] for a in range(n)]
+    detcol = int(_det(C))
+    return {"detCol": detcol, "colFull": detcol != 0, "equalNorm": len({G[i][i] for i in nz}) <= 1,
+            "rank": rk, "rankUnamb": rk == len(nz), "detNZ": int(detnz), "trG": tr, "lamFloor": lam,
             "conflictFree": all(G[i][j] >= 0 for i in range(m) for j in range(m)),
             "mgdaTie1": sum(1 for v in ga if v == min(ga)) > 1, "mgdaGd": gd, "imtlgDegenerate": deg}
 
@@ -230,6 +234,24 @@ def random_gen(rng: random.Random, inst: Inst, pid: str) -> dict:
     return g
 
 
+def equal_norm_rows(n: int, rho: int) -> list[list[int]]:
+    """All integer vectors of length n with squared norm rho."""
+    import itertools
+    b = math.isqrt(rho)
+    return [list(v) for v in itertools.product(range(-b, b + 1), repeat=n) if sum(x * x for x in v) == rho]
+
+
+def py_config(J: list[list[int]], w: list[int]) -> dict:
+    """This driver's own exact ConFIG data on a matrix with independent columns (Cramer on J^T J, fractions)."""
+    m, n = len(J), len(J[0])
+    C = [[Fraction(sum(J[i][a] * J[i][b] for i in range(m))) for b in range(n)] for a in range(n)]
+    tv = [Fraction(sum(w[i] * J[i][a] for i in range(m))) for a in range(n)]
+    y0 = [int(_det([[tv[r_] if c_ == j else C[r_][c_] for c_ in range(n)] for r_ in range(n)])) for j in range(n)]
+    g = math.gcd(*y0) if n > 1 else abs(y0[0])
+    y = [v // g for v in y0] if g else y0
+    return {"y": y, "yy": sum(v * v for v in y), "d": [sum(a * b for a, b in zip(row, y)) for row in J], "deg": g == 0}
+
+
 def make_recipe(rng: random.Random, pid: str, ep: int) -> dict:
     m = rng.choice([2, 3, 3, 4, 4])
     n = rng.choice([3, 4, 4, 5]) if m < 4 else rng.choice([3, 4, 4])
@@ -239,6 +261,14 @@ def make_recipe(rng: random.Random, pid: str, ep: int) -> dict:
         J0[rng.randrange(m)] = [0] * n
     if rng.random() < 0.1:
         J0[0] = J0[-1][:]
+    if m >= 3 and rng.random() < (0.3 if pid == "C09" else 0.12):
+        # TALL instance whose rows share one norm (independent columns with high probability; the classification
+        # decides): the region in which ConFIG's projections <g_i, u> have both signs
+        n = 2 if m == 3 else rng.choice([2, 3])
+        pool = equal_norm_rows(n, rng.choice([5, 25, 10, 13] if n == 2 else [9, 6, 5]))
+        J0 = [rng.choice(pool)[:] for _ in range(m)]
+        if rng.random() < 0.1:
+            J0[rng.randrange(m)] = [0] * n
     P0 = [rng.randint(0, 4) for _ in range(m)]
     if not any(P0):
         P0[0] = 1
@@ -314,7 +344,7 @@ def _exact_outputs(M: torch.Tensor, P, W, m: int, e: int, seed: int, sp: dict | 
     return o
 
 
-REASON = {"rank_ambiguous": "rank", "mgda_argmin_tie": "mgda_tie", "imtlg_guard_degenerate": "imtlg",
+REASON = {"config_direction_exactly_zero": "cfgzero", "rank_ambiguous": "rank", "mgda_argmin_tie": "mgda_tie", "imtlg_guard_degenerate": "imtlg",
           "norm_eps_threshold_ambiguous": "threshold"}
 
 
@@ -361,9 +391,18 @@ def execute(recipe: dict) -> dict:
             continue
         name = r["name"]
         tie = "mgda1" if (name == "MGDA1" and pid == "C10") else ("imtlg" if name == "IMTLG" else "none")
-        ent = {"agg": name, "needsRank": r["needs_rank"], "tie": tie, "compared": False, "ok": True, "reason": ""}
+        # ConFIG on independent columns with one row norm (exact in the model): compared although the rows are dependent
+        colreg = name.startswith("ConFIG") and cls["colFull"] and cls["equalNorm"] and inst.n == inst.n0 and not presented(sp)
+        ent = {"agg": name, "needsRank": r["needs_rank"], "tie": tie, "compared": False, "ok": True, "reason": "",
+               "col": bool(colreg), "pref": name == "ConFIGP"}
         why = None
-        if r["needs_rank"] and not cls["rankUnamb"]:
+        cfgd = py_config(inst.J, inst.P if name == "ConFIGP" else [1] * m) if colreg and inst.den == 1 else None
+        if colreg and inst.den != 1:
+            colreg = ent["col"] = False
+        ent["cfg"] = cfgd if cfgd is not None else {"y": [], "yy": 0, "d": [], "deg": False}
+        if cfgd is not None and cfgd["deg"] and not (name == "ConFIGP" and pref_deg):
+            why = "cfgzero"
+        elif r["needs_rank"] and not cls["rankUnamb"] and not colreg:
             why = "rank"
         elif name == "IMTLG" and cls["imtlgDegenerate"]:
             why = "imtlg"
@@ -377,6 +416,9 @@ def execute(recipe: dict) -> dict:
             continue
         ent["compared"] = True
         cond = cond_of(r, cls, m, name)
+        if colreg:
+            cond = config_col(r, {"cfg": {"on": True, "ones": cfgd, "pref": cfgd}, "cls": cls, "m": m, "n": inst.n,
+                                  "P": inst.P, "pad": inst.pad}, name)[1]
         if name == "ConFIGP" and pref_deg:        # exact expected value: the zero vector on both sides
             mats = Ms if kind == "scale" else [M0, M1]
             pars = [(P0, W0)] * 3 if kind == "scale" else [(P0, W0), (inst.P, inst.W)]
@@ -395,6 +437,10 @@ def execute(recipe: dict) -> dict:
                 tol = 64 * EPS * cond * sum(k * ref_of(cls, e, w1, float(max(c))) for k, c in
                                             zip((1, inst.a, inst.b), (xc, inst.c1, inst.c2)))
                 ent["ok"] = bool(maxdiff(xs[0], inst.a * xs[1] + inst.b * xs[2]) <= tol)
+                if colreg:     # ... and each of the three values is the exact one (sum_i c_i d_i) y / <y, y>
+                    ent["ok"] = ent["ok"] and all(
+                        maxdiff(x, config_exact(cfgd, c, e, 1)) <= 64 * EPS * cond * ref_of(cls, e, float(m), float(max(c)))
+                        for x, c in zip(xs, (xc, inst.c1, inst.c2)))
         else:
             # the laws are about ONE aggregator A evaluated at J and at the transformed J: whenever both sides have
             # the same configuration (no per-row parameter vector, or rows not permuted) it IS one object, and the
@@ -427,6 +473,8 @@ def execute(recipe: dict) -> dict:
                     wa, wb = call(a0, M0, seed, weights=True), call(a1, M1, seed, weights=True)
                     tol += math.sqrt(mgda_gap(M0, wa)) + math.sqrt(mgda_gap(M1, wb))
                 ent["ok"] = bool(maxdiff(x0 @ Qt, x1) <= tol)
+                if colreg:
+                    ent["ok"] = ent["ok"] and maxdiff(x1, config_exact(cfgd, [1] * m, e, 1)) <= 64 * EPS * cond * ref_of(cls, e, float(m))
         flt.append(ent)
     ep["flt"] = flt
     return ep
@@ -484,6 +532,8 @@ def run_cs(ctx: Ctx, pid: str, n_episodes: int) -> dict:
     ctx.count("trace_episodes_one_object_refilled_storage", sum(1 for r in recipes if r["pres"] != "fresh"))
     import torchjd.aggregation  # noqa: F401
     episodes = pmap(_exec, recipes, chunksize=4)
+    ctx.count("trace_episodes_config_compared_on_dependent_rows",
+              sum(1 for e in episodes if not e["cls"]["rankUnamb"] and any(f["col"] and f["compared"] for f in e["flt"])))
     ctx.evaluations += sum(2 * (4 + len(e["out0"]["tm"]) + len(e["out0"]["krum"])) + 2 * len(e["flt"]) for e in episodes)
     for e in episodes:
         if e["gens"] and not e["cls"]["conflictFree"]:
